@@ -188,9 +188,9 @@ func C03Location(c *Ctx) {
 				b = append(b, item...)
 			}
 			one("0704", b, "count")
-			one("0704", append(b, 0), "count")      // one dangling byte where an item length is expected
-			one("0704", append(b, 0, 0), "count")   // an empty item
-			one("0704", append(b, 0, 5), "count")   // item length beyond the body
+			one("0704", append(b, 0), "count")    // one dangling byte where an item length is expected
+			one("0704", append(b, 0, 0), "count") // an empty item
+			one("0704", append(b, 0, 5), "count") // item length beyond the body
 			one("0704", append(b, 255, 255), "count")
 		}
 	}
